@@ -460,14 +460,49 @@ fn run_buf_program(p: &Value, out: &mut String) {
                     res.flag = b.set_limit(&path, n);
                 }
                 "read" => {
+                    let avail = Buf::remaining(&**root.as_ref().unwrap());
                     let mut rd = root.take().unwrap().reader();
-                    let mut d = vec![0u8; n.min(1 << 16)];
-                    let got = rd.read(&mut d);
-                    res.flag = got.is_ok();
-                    let g = got.unwrap_or(0);
-                    res.n = g as i64;
-                    d.truncate(g);
-                    res.v = d;
+                    match m {
+                        // read_exact of something that is there; read_vectored with an empty first
+                        // buffer; read_to_end into a Vec that already holds data (logged n = MAX)
+                        "exact" if n <= avail => {
+                            let mut d = vec![0u8; n.min(1 << 16)];
+                            let got = rd.read_exact(&mut d);
+                            res.flag = got.is_ok();
+                            res.n = d.len() as i64;
+                            res.v = d;
+                        }
+                        "vectored" => {
+                            let mut d = vec![0u8; n.min(1 << 16)];
+                            let mut e: [u8; 0] = [];
+                            let got = {
+                                let mut bufs = [std::io::IoSliceMut::new(&mut e), std::io::IoSliceMut::new(&mut d)];
+                                rd.read_vectored(&mut bufs)
+                            };
+                            res.flag = got.is_ok();
+                            let g = got.unwrap_or(0);
+                            res.n = g as i64;
+                            d.truncate(g);
+                            res.v = d;
+                        }
+                        "to_end" => {
+                            let mut d = vec![7u8, 7, 7];
+                            let got = rd.read_to_end(&mut d);
+                            res.flag = got.is_ok();
+                            res.n = got.unwrap_or(0) as i64;
+                            res.flag = res.flag && d[..3] == [7, 7, 7];
+                            res.v = d[3..].to_vec();
+                        }
+                        _ => {
+                            let mut d = vec![0u8; n.min(1 << 16)];
+                            let got = rd.read(&mut d);
+                            res.flag = got.is_ok();
+                            let g = got.unwrap_or(0);
+                            res.n = g as i64;
+                            d.truncate(g);
+                            res.v = d;
+                        }
+                    }
                     root = Some(rd.into_inner());
                 }
                 "fill_buf" => {
@@ -485,6 +520,46 @@ fn run_buf_program(p: &Value, out: &mut String) {
                     if let Err(e) = r2 {
                         std::panic::resume_unwind(e);
                     }
+                }
+                "into_iter" if m != "" => {
+                    // the same through an IntoIter over `&mut B` and the consuming Iterator methods
+                    // (a by-value override of fold / for_each / collect must still leave the
+                    // underlying buffer advanced)
+                    let b: &mut dyn Node = &mut **root.as_mut().unwrap();
+                    let it = bytes::buf::IntoIter::new(b);
+                    let hint = it.size_hint();
+                    res.n = enc(hint.0);
+                    res.flag = hint.1 == Some(hint.0) && it.len() == hint.0;
+                    res.v = match m {
+                        "fold" => it.fold(Vec::new(), |mut a, x| {
+                            a.push(x);
+                            a
+                        }),
+                        "for_each" => {
+                            let mut a = Vec::new();
+                            it.for_each(|x| a.push(x));
+                            a
+                        }
+                        "collect" => it.collect::<Vec<u8>>(),
+                        "rev_chain" => it.chain(std::iter::empty()).collect::<Vec<u8>>(),
+                        _ => {
+                            let mut it = it;
+                            let mut a = Vec::new();
+                            while let Some(x) = it.next() {
+                                a.push(x);
+                            }
+                            a
+                        }
+                    };
+                }
+                "iter_nth" => {
+                    let b: &mut dyn Node = &mut **root.as_mut().unwrap();
+                    let mut it = bytes::buf::IntoIter::new(b);
+                    let got = match m {
+                        "skip" => it.skip(n).next(),
+                        _ => it.nth(n),
+                    };
+                    res.v = got.into_iter().collect();
                 }
                 "into_iter" => {
                     let it = bytes::buf::IntoIter::new(root.take().unwrap());
